@@ -126,18 +126,21 @@ class Join(BinaryOperation):
                     f"for right-hand side of join between {lhs!r} and {rhs!r}."
                 )
             operation = self
-        if lhs.is_join_identity:
-            return IgnoreOne(True)
-        if rhs.is_join_identity:
-            return IgnoreOne(False)
+        if self.predicate.as_trivial() is True:
+            # With a non-trivial predicate the join still filters the other
+            # operand; _finish_apply handles that.
+            if lhs.is_join_identity:
+                return IgnoreOne(True)
+            if rhs.is_join_identity:
+                return IgnoreOne(False)
         return operation
 
     def _finish_apply(self, lhs: Relation, rhs: Relation) -> Relation:
         # Docstring inherited.
         if lhs.is_join_identity:
-            return rhs
+            return rhs.with_rows_satisfying(self.predicate)
         if rhs.is_join_identity:
-            return lhs
+            return lhs.with_rows_satisfying(self.predicate)
         if lhs.engine != rhs.engine:
             raise EngineError(f"Mismatched join engines: {lhs.engine} != {rhs.engine}.")
         if not self.predicate.is_supported_by(lhs.engine):
